@@ -6,7 +6,7 @@ import warnings
 from .common import Oracle, Slow, Suite, deadline, errname, merge
 
 GEN_UNITS = ["Handlers", "PyUnicode", "ContextPolicy"]
-LEAN_TARGETS = ["PasslibVerif.Props.C04", "PasslibVerif.Props.C04Str", "PasslibVerif.Props.C04StrExamples", "PasslibVerif.Props.C04StrExamples2"]
+LEAN_TARGETS = ["PasslibVerif.Props.C04", "PasslibVerif.Props.C04Str", "PasslibVerif.Props.C04StrExamples", "PasslibVerif.Props.C04StrExamples2", "PasslibVerif.Props.C04Kwds"]
 ASSUMPTIONS = [
     "facts about individual hash strings (which schemes claim it, its parsed cost, scheme-specific flags, whether the password verifies) are atoms supplied by the real hashers; their correctness is C01/C07/C17",
     "float vary_rounds enters as the integer the interpreter computes",
@@ -471,7 +471,12 @@ def correspond(ctx):
 
     s_str = Suite(ctx, "context-over-hasher-models", batch=2000, model_canon=c04_str.canon)
     c04_str.model_suite(ctx, s_str, n=60 if not ctx.thorough else 1500)
-    return merge(s_cfg, s_dec, o_b, o_f, o_rc, s_str)
+    # ---- which keywords reach which hasher call, `scheme=` / `category=`, reconfigured contexts: Model.ContextKwds (suite `ckw`)
+    from . import c04_kwds
+
+    s_kw = Suite(ctx, "context-keywords-to-hashers", batch=2000)
+    c04_kwds.model_suite(ctx, s_kw, n=150 if not ctx.thorough else 3000)
+    return merge(s_cfg, s_dec, o_b, o_f, o_rc, s_str, s_kw)
 
 
 # ------------------------------------------------------------------------------------------
